@@ -7,7 +7,7 @@ and one more Lean module of property theorems. Not a registry entry by itself (n
 
 Wiring: append STREAM to ENTRY["streams"], append EXTRA_LEAN to ENTRY["lean_props_extra"] (its theorems are audited like
 those of Props/C12.lean), add MONITOR_SIGS to ENTRY["monitor_sigs"], extend trusted_base / assumptions with the lines
-below, add KNOWN_FINDINGS to known_findings.json. lean_exe `drv-create` is already in lakefile.toml; the hook
+below, record FIXED (both findings of this extension are repaired in /repo: 5f2f8be, c6adf89; KNOWN_FINDINGS is empty). lean_exe `drv-create` is already in lakefile.toml; the hook
 /repo/cmd/verif_export_create.go is committed ("verif hook: create cluster glue ...", ed291c8).
 
 n_quick / n_thorough count EPISODES (one real `create cluster` run each, insecure keystore cost), not ops; a successful
@@ -31,11 +31,13 @@ MONITOR_SIGS = ["create:", "combine:", "keystore:"]
 THEOREMS = [
     "CharonV.CreateGlue.plan_establishes_wellformed_inputs",
     "CharonV.CreateGlue.split_mode_uses_imported_keys",
+    "CharonV.CreateGlue.plan_secrets_are_distinct",
     "CharonV.CreateGlue.share_placement",
     "CharonV.CreateGlue.threshold_subsets_recombine",
     "CharonV.CreateGlue.dedup_amounts_once_ascending",
     "CharonV.CreateGlue.deposits_and_registrations",
     "CharonV.CreateGlue.deposit_files_per_amount_and_node",
+    "CharonV.CreateGlue.good_run_lock_verifies",
     "CharonV.CreateGlue.created_lock_verifies",
     "CharonV.CreateGlue.lock_rejected_when_threshold_exceeds_nodes",
     "CharonV.CreateGlue.combine_after_create_is_identity",
@@ -50,44 +52,51 @@ THEOREMS = [
     "CharonV.CreateGlue.accepted_public_shares_lie_on_one_polynomial",
     "CharonV.CreateGlue.single_interpolation_accepts_inconsistent_public_shares",
     "CharonV.CreateGlue.combine_fewer_keystores_than_validators",
-    "CharonV.CreateGlue.definition_threshold_above_operators_is_accepted",
+    "CharonV.CreateGlue.unfixed_definition_threshold_above_operators_was_accepted",
+    "CharonV.CreateGlue.unfixed_duplicate_split_key_was_accepted",
 ]
 
-KNOWN_FINDINGS = [
-    {"property": "C12", "sig": "create:lock_threshold_exceeds_nodes",
-     "what": "create cluster --definition-file does not check the definition's threshold against its number of operators "
-             "(validateDef has no such check, the cobra PreRunE check only covers the --threshold flag, tbls.ThresholdSplit "
-             "accepts threshold > total): with threshold > len(operators) the command SUCCEEDS, writes key shares, deposit-data "
+KNOWN_FINDINGS = []
+
+FIXED = [
+    {"property": "C12", "sig": "create:lock_threshold_exceeds_nodes", "commit": "5f2f8be",
+     "what": "create cluster --definition-file did not check the definition's threshold against its number of operators "
+             "(validateDef had no such check, the cobra PreRunE check only covers the --threshold flag, tbls.ThresholdSplit "
+             "accepts threshold > total): with threshold > len(operators) the command SUCCEEDED, wrote key shares, deposit-data "
              "files for keys no subset of the written shares can reconstruct, and a cluster-lock.json that "
-             "cluster.LoadClusterLock rejects (verify share reconstruction: invalid threshold) - charon run and charon combine "
-             "refuse what was written. Kernel-checked: plan_establishes_wellformed_inputs (last clause), "
-             "lock_rejected_when_threshold_exceeds_nodes, definition_threshold_above_operators_is_accepted; partial statement "
-             "created_lock_verifies (hypothesis t <= n). Such a definition needs a tool other than `charon create dkg` (which "
-             "checks the flag) but carries valid hashes. Proposed fix: fixes/C12-create-definition-threshold.diff"},
-    {"property": "C12", "sig": "create:duplicate_split_key_lock_invalid",
-     "what": "create cluster --split-existing-keys on a directory that holds the same validator key in two keystores succeeds "
-             "and writes a lock with two validators of one public key (each carrying the deposit data of both: getValidators "
-             "groups deposit data by public key) which cluster.LoadClusterLock rejects (duplicate distributed validator public "
-             "key). User error, but nothing in getKeys / runCreateCluster reports it and the artifacts are written. The model "
-             "follows the code (stream ops art show dd=.. twice per amount and ver=0); the theorems assume pairwise different "
-             "validator keys (GoodRun.keys_nodup). No patch proposed (a check of the loaded keys for duplicates in getKeys "
-             "would do)"},
+             "cluster.LoadClusterLock rejects. Repair: validateDef returns an error for threshold < 2 or > len(operators) "
+             "(fixes/C12-create-definition-threshold.diff). Model switch Fixes.defThreshold (default true = repaired); "
+             "kernel-checked witness about the unrepaired switch: unfixed_definition_threshold_above_operators_was_accepted; "
+             "the full statement created_lock_verifies now holds without a hypothesis on the threshold. Reverting the repair "
+             "makes the monitor fire again (5 violations + 8 diff lines on seeds 1, 3)"},
+    {"property": "C12", "sig": "create:duplicate_split_key_lock_invalid", "commit": "c6adf89",
+     "what": "create cluster --split-existing-keys on a directory holding the same validator key in two keystores succeeded "
+             "and wrote a lock with two validators of one public key (each carrying the deposit data of both) which "
+             "cluster.LoadClusterLock rejects. Repair: getKeys calls checkUniqueKeys on both loader paths. Model switch "
+             "Fixes.uniqueKeys (default true = repaired); witness about the unrepaired switch: "
+             "unfixed_duplicate_split_key_was_accepted; plan_secrets_are_distinct / split_mode_uses_imported_keys now PROVE "
+             "that imported keys are pairwise different. Reverting the repair makes the monitor fire again (4 violations + 21 "
+             "diff lines on seeds 1, 3)"},
 ]
 
 LEVEL_TEXT = (" The glue that PRODUCES and RE-READS these artifacts is modelled function by function (Model/CreateGlue.lean) and "
     "Props/C12Create.lean proves, for every number of nodes, threshold, validators and every list of deposit amounts, every "
     "randomness of the splits, every timestamp and every pattern of failing writes: `plan` (flags or definition file, "
     "--split-existing-keys or fresh keys, every validation of validateCreateConfig / validateDef / newDefFromConfig in the code's "
-    "order) hands on one key, fee recipient and withdrawal address per validator and, with flags, a threshold in 2..n "
-    "(plan_establishes_wellformed_inputs; split_mode_uses_imported_keys); in a successful run the k-th keystore of node i is share "
+    "order, including the two repairs 5f2f8be / c6adf89 as switches of the model) hands on one key, fee recipient and withdrawal "
+    "address per validator, a threshold in 2..n in BOTH modes and pairwise different imported keys "
+    "(plan_establishes_wellformed_inputs; split_mode_uses_imported_keys; plan_secrets_are_distinct); in a successful run the k-th keystore of node i is share "
     "i+1 of validator k and its public key is lock.Validators[k].PubShares[i] (share_placement); every list of >= t pairwise "
     "different share indices recombines to the k-th secret whose public key the lock lists (threshold_subsets_recombine); the lock "
     "carries, where its version supports it, one deposit data per de-duplicated ascending amount for the validator's own key and "
     "ITS withdrawal address and the registration for ITS fee recipient, gas limit and the run's timestamp, all signed by the "
     "validator secret, and every node gets one deposit file per amount with all validators "
-    "(deposits_and_registrations, dedup_amounts_once_ascending, deposit_files_per_amount_and_node); the written lock passes the "
-    "model of Lock.VerifyHashes + VerifySignatures when t <= n (created_lock_verifies) and is rejected otherwise "
-    "(lock_rejected_when_threshold_exceeds_nodes, witness definition_threshold_above_operators_is_accepted: known finding); "
+    "(deposits_and_registrations, dedup_amounts_once_ascending, deposit_files_per_amount_and_node); for EVERY input `plan` accepts "
+    "the written lock passes the model of Lock.VerifyHashes + VerifySignatures (created_lock_verifies: the full statement, no "
+    "hypothesis on threshold or imported keys; good_run_lock_verifies is the form over an arbitrary plan with t <= n); a lock "
+    "with threshold > operators is rejected (lock_rejected_when_threshold_exceeds_nodes) and the code before the repairs "
+    "accepted such a definition and a duplicated split key (unfixed_definition_threshold_above_operators_was_accepted, "
+    "unfixed_duplicate_split_key_was_accepted: statements about the unrepaired switches); "
     "Combine over the directories of ANY >= t nodes in any order returns exactly the secrets that were split "
     "(combine_after_create_is_identity); whatever Combine accepts for ANY input, the k-th output key has the public key of "
     "validator k of the lock it loaded, >= threshold directories contributed and every contributed share is one of that "
@@ -168,12 +177,14 @@ ASSUMPTIONS = [
     "public key; a signature verifies under its key; the plain aggregate of signatures over one message verifies under the list "
     "of their keys); threshold_bls_satisfies_laws proves them for the threshold-BLS algebra of C08 over any scalar field for split "
     "randomness of degree < t-1 (share identifiers 1..n pairwise different as scalars: n below the group order)",
-    "GoodRun also asks for 2 <= t (else tbls.ThresholdSplit fails before anything is written: modelled), one address pair per "
-    "validator and a non-empty amounts list (both PROVED of every plan: plan_establishes_wellformed_inputs) and pairwise different "
-    "validator public keys (fresh keys: negligible; --split-existing-keys: a duplicated key file breaks it - known finding "
-    "create:duplicate_split_key_lock_invalid); created_lock_verifies / combine_after_create_is_identity additionally t <= n (not "
-    "enforced for a definition file: known finding create:lock_threshold_exceeds_nodes) and pairwise different public shares per "
-    "validator (two shares of one random polynomial coincide with negligible probability; Lock.VerifySignatures demands it too)",
+    "GoodRun (the theorems over an arbitrary plan) asks for 2 <= t, one address pair per validator, a non-empty amounts list and "
+    "pairwise different validator public keys, good_run_lock_verifies / combine_after_create_is_identity additionally t <= n: "
+    "ALL of these are PROVED of every plan the repaired code accepts (plan_establishes_wellformed_inputs: threshold in 2..n in "
+    "both modes since 5f2f8be; plan_secrets_are_distinct: imported keys since c6adf89), so created_lock_verifies needs none of "
+    "them. What remains assumed there is cryptographic: the Laws, an injective SecretToPublicKey, generated keys that never "
+    "repeat (hfresh), and pairwise different public shares per validator (two values of one random polynomial coincide with "
+    "negligible probability; Lock.VerifySignatures demands it too); plus hcli: a non-zero threshold in the flags configuration "
+    "only comes with the --threshold flag (cobra)",
     "the lock hash identifies the lock content (collision resistance: C12 proper): the model's Lock carries its hash as a field, "
     "`uuid` stands for everything of the definition that identifies the cluster, `defOk` for the definition's own hashes and "
     "signatures (cluster/definition.go); hashing the in-memory lock equals hashing its per-version JSON projection (checked on "
